@@ -179,6 +179,13 @@ def modelDispatch : Dispatch where
   primLen := .skip
   primKind := .skip
 
+/-- the extractor before fix F5: the same if-chains, every `raise` propagates (kept as the object the
+    repaired one is compared with) -/
+def unrepairedDispatch : Dispatch :=
+  { modelDispatch with
+    dotLen := .raise, dotRoot := .raise, argLen := .raise, argRoot := .raise, idxLen := .raise,
+    idxEmpty := .raise, idxTerm := .raise, idxRoot := .raise, primLen := .raise, primKind := .raise }
+
 /-- result of naming one access: a dotted key, "not nameable" (the repaired code's `_Unnameable`,
     caught by the loop), or an exception that leaves `extract_argument_structure` -/
 inductive R where
@@ -460,6 +467,27 @@ def parentMatch (key : String) : Option ReMatch :=
     if c = '\n' then none
     else some ⟨some (String.ofList (rest.takeWhile (· != '\n')))⟩
   | _ => none
+
+def inputsPatternSource : String := "inputs.(?P<name>[^.[]+)?\\[?.*"
+
+/-- `INPUTS_NAME_PATTERN.match(key)` of resource_function/prepare.py, `inputs.(?P<name>[^.[]+)?\[?.*`: the name
+    group is OPTIONAL — `inputs2.zone`, `inputs[".zone"]` (key `inputs..zone`) match with `group("name") is None` -/
+def inputsMatch (key : String) : Option ReMatch :=
+  match key.toList with
+  | 'i' :: 'n' :: 'p' :: 'u' :: 't' :: 's' :: c :: rest =>
+    if c = '\n' then none
+    else
+      let nm := rest.takeWhile (fun ch => ch != '.' && ch != '[')
+      some ⟨if nm.isEmpty then none else some (String.ofList nm)⟩
+  | _ => none
+
+/-- how `_prepare_overlays` turns the set of missing input names into text:
+    `", ".join(f'"{m}"' for m in <missing or sorted(missing)>)` (each name formatted, `None` prints as None)
+    or `", ".join(<missing or sorted(missing)>)` (the raw names) -/
+inductive JoinStyle where
+  | formatEach (sorted : Bool)
+  | raw (sorted : Bool)
+  deriving DecidableEq, Repr
 
 /-- `match.group("name") for match in (STEPS_NAME_PATTERN.match(key) for key in keys) if match` -/
 def stepsNamesRaw (keys : List String) : List (Option String) :=
